@@ -32,20 +32,20 @@ CHECKS = {
     'C08': (PBT + 'round trip h(ppf(y,v),v)=y against the code and an independent reference h, monotonicity, lane independence',
             'Generated (family, theta, vectors of (y,v) in [1e-4,1-1e-4]^2 of length 1..200).',
             'Root-finder tolerance 1e-6 in y.'),
-    'C09': (PBT + 'DKW bands on margins, Hoeffding U-statistic band on Kendall tau, grid joint-CDF band against code and reference CDF, Rosenblatt transform uniformity',
-            'Generated (family, tau or theta, seed, n); statistical agreement with false-alarm probability < 1e-9 per run.',
+    'C09': (PBT + 'DKW bands and an atom test on the margins, Bernstein U-statistic band on Kendall tau, grid joint-CDF band against code and reference CDF, Rosenblatt transform uniformity, exact binomial test of the four corner-box masses on large enumerated samples',
+            'Generated (family, tau or theta as float / numpy scalar / 0-d array, seed, n, rows from one call or from many calls of 1-3 rows, a sibling copula sampled in between); statistical agreement with false-alarm probability < 1e-9 per run.',
             'Weak-but-sound bands; sharp content in C06-C08.'),
     'C10': (PBT + 'tau-b equality with scipy, closed-form / Debye-function calibration reference, refusal contract (ValueError)',
             'Generated (n,2) pseudo-observations incl. ties, (anti-)monotone, exact tau=0, constant columns and out-of-range values.',
-            'Frank solver accuracy 5e-3 in tau.'),
+            'Frank solver accuracy by |tau|: 1e-5 (>= 0.1), 5e-4 (>= 0.01), 5e-3 below - from the measured accuracy of the library\'s calibration.'),
     'C11': (PBT + 'calibration of the returned object, determinism metamorphic relation, recovery rate by exact binomial test against 70%',
             'Generated arbitrary pseudo-observation arrays + samples from an independent reference sampler per (family, tau) cell.',
             'Recovery clause statistical.'),
-    'C12': (PBT + 'exact fixed-column check + own Schur-complement conditional law (censored-normal DKW, whitened joint test)',
-            'Generated fitted models x condition subsets in arbitrary order x values in/at/outside the range x dict/Series.',
+    'C12': (PBT + 'exact fixed-column check + own Schur-complement conditional law (censored-normal DKW, whitened joint test) + tail conditioning (continuity and law of the free column for conditions at +-4.3..5.15 sigma under |rho| >= 0.97)',
+            'Generated fitted models x condition subsets in arbitrary order x values in/at/outside the range x dict/Series, with a second live model answering the same conditions first.',
             'Statistical bands alpha 1e-13 per assertion.'),
     'C13': (PBT + 'own MVN density, MVN CDF on own normal scores, container / permutation / row-independence metamorphic relations',
-            'Generated fitted models x query batches x containers (DataFrame with permuted columns, ndarray, Series).',
+            'Generated fitted models x query batches x containers (DataFrame with permuted columns and non-default row labels, ndarray, float32 frame / array, Series), with a second live model fitted and queried in between.',
             'For d>=3 the MVN integrator is scipy\'s (2e-4 tolerance); data flow is independent.'),
     'C14': (PBT + 'round-trip observational equality (to_dict, probes, seeded sample streams) across dict / pickle / JSON routes, repeated',
             'Generated models of every class with options, trained on generated data incl. constant and edge parameters.',
